@@ -63,7 +63,7 @@ def _dims(d):
 
 
 def bounds(tier):
-    return {"dims": _dims(2), "deviation_bound": {"quick": {"d2": 2, "d3": 2}, "thorough": {"d2": 4, "d3": 3}}[tier], "wrappers": ["ModelWrapper(identity / channel-reversal) eager, jit, vmap", "GroupAverage", "Climate1D"]}
+    return {"dims": _dims(2), "deviation_bound": {"quick": {"d2": 2, "d3": 2}, "thorough": {"d2": 4, "d3": 3}}[tier], "centres": ["equivariant ResNet (default)", "conventional U-Net"], "wrappers": ["ModelWrapper(identity) eager, jit, vmap", "GroupAverage", "Climate1D"]}
 
 
 def _normalise(c):
@@ -90,6 +90,13 @@ def cases(tier, seed):
     for d in (2, 3):
         for cell, dev in explore.cells(_dims(d), plan[d]):
             out.append(_normalise(dict(cell, d=d, kind="model", dev=dev)))
+    # second centre: the conventional U-Net (the conventional path is a different code path end to end), again with
+    # every cell within the deviation bound around it
+    dims2 = dict(_dims(2))
+    dims2["equivariant"] = [False, True]
+    dims2["cls"] = ["UNet"] + [c for c in dims2["cls"] if c != "UNet"]
+    for cell, dev in explore.cells(dims2, plan[2]):
+        out.append(_normalise(dict(cell, d=2, kind="model", dev=dev + 2)))
     out = explore.dedupe(out, lambda c: repr(sorted((k, v) for k, v in c.items() if k != "dev")))
     for c in out:
         c["cost"] = (3 if c["cls"] in ("DilResNet", "UNet") else 1) * (4 if c["d"] == 3 else 1)
